@@ -106,7 +106,7 @@ func (v *callerView) changed(p transaction.Params, auxs coin.AddressUxOuts, wp *
 			if full[i] != v.to[i] {
 				where := "To"
 				if i >= v.toLen {
-					where = "To[len:cap]"
+					where = "To.spare-capacity"
 				}
 				add(where, "element %d: %v -> %v", i, v.to[i], full[i])
 				break
